@@ -1350,7 +1350,9 @@ def der_sig(r: int, s: int) -> bytes:
 STRICT_VARIANTS = ["valid", "valid", "valid", "high_s", "wrong_key", "wrong_msg", "empty", "undefined_hashtype",
                    "s_ge_n", "r_ge_n", "zero_s"]
 LAX_VARIANTS = ["pad_r", "pad_s", "neg_r", "long_len", "trailing", "seq_len_wrong", "neg_s_highbit", "garbage_after_r",
-                "only_header", "int_len_zero", "long_form_zero_len"]
+                "only_header", "int_len_zero", "long_form_zero_len",
+                # non-minimal (long-form) length octets on the integers and two-octet long forms (seed C03-e1)
+                "long_len_r", "long_len_s", "long_len2_seq", "long_len2_r", "long_len_all"]
 
 
 def make_sig(rng, digest_f, key_i, hashtype, variant):
@@ -1395,6 +1397,21 @@ def make_sig(rng, digest_f, key_i, hashtype, variant):
     elif variant == "long_form_zero_len":
         body = ri + si
         return b"\x30\x80" + body + ht
+    elif variant in ("long_len_r", "long_len_s", "long_len2_seq", "long_len2_r", "long_len_all"):
+        def longf(x, octets):          # re-encode the length of one INTEGER in long form with `octets` length octets
+            return x[:1] + bytes([0x80 | octets]) + x[1].to_bytes(octets, "big") + x[2:]
+        if variant in ("long_len_r", "long_len_all"):
+            ri = longf(ri, 1)
+        if variant in ("long_len_s", "long_len_all"):
+            si = longf(si, 1)
+        if variant == "long_len2_r":
+            ri = longf(ri, 2)
+        body = ri + si
+        if variant == "long_len2_seq":
+            return b"\x30\x82" + len(body).to_bytes(2, "big") + body + ht
+        if variant == "long_len_all":
+            return b"\x30\x81" + bytes([len(body)]) + body + ht
+        return b"\x30" + bytes([len(body)]) + body + ht
     elif variant == "trailing":
         body = ri + si
         return b"\x30" + bytes([len(body)]) + body + rand_bytes(rng, rng.randint(1, 3)) + ht
@@ -2492,7 +2509,17 @@ def chk_lax(var, c: SpendCase):
     else:
         LAX_STATS["differ"] += 1
         d["differ"] += 1
+        if var not in KNOWN_LAX_SHAPES:
+            # the open finding `lax-der-parser` is these two shapes and nothing else: any other lax-DER shape on which
+            # pycoin and Core's lax parser part ways is a new violation (seed C03-e1: non-minimal length octets refused)
+            return {"kind": "verdict", "level": "spend-lax", "variant": var, "impl": _show(impl), "spec": _show(spec),
+                    "flags": flag_names(c.flags)}
     return None
+
+
+# the signature shapes of the open finding lax-der-parser (KNOWN_FINDINGS.txt): a wrong SEQUENCE length octet and the 30 80
+# indefinite form.  Measured on the unchanged tree: every other generated lax shape agrees with Core's lax parser.
+KNOWN_LAX_SHAPES = {"seq_len_wrong", "long_form_zero_len"}
 
 
 def lax_report():
